@@ -136,12 +136,97 @@ void deque_test() {
   lin::require_linearizable(sp, "a sequential deque (owner LIFO, thieves FIFO, steal may fail in a race)");
 }
 
+// Sequential sweep over index offsets, fill levels and growth steps beyond what the concurrent families reach: the deque
+// is moved to offset o (push+steal pairs), filled with n items (several doublings of the array: 2 -> 4 -> ... -> 64),
+// part of them is taken out again from either end, a second batch is pushed (growth with a window that wraps the old
+// array at an arbitrary position), and everything is drained in one of three patterns.  Compared step by step with
+// a reference deque; `MaxCap` > 0: pushes beyond that capacity must be refused and leave the contents intact.
+template <class D, int MaxCap>
+void deque_sweep() {
+  const int maxoffset = (int)opt("maxoffset", 20), maxn = (int)opt("maxn", 34);
+  const int offset = choose(maxoffset + 1);
+  const int n = 1 + choose(maxn);
+  const int take = choose(3);    // 0: nothing, 1: steal n/2, 2: pop n/3 before the second batch
+  const int second = choose(3);  // second batch: 0, n/2+1, n+1 items
+  const int pattern = choose(3); // drain: 0 pops, 1 steals, 2 alternating
+  static Item items[256];
+  for (int i = 0; i < 256; i++) items[i].v = i;
+  D* d = new D();
+  int ref[256];
+  int lo = 0, hi = 0; // reference contents ref[lo..hi)
+  int next = 1;
+  auto push = [&](bool must) -> bool {
+    int v = next++;
+    bool ok = d->try_push(&items[v]);
+    bool expect = MaxCap <= 0 || hi - lo < MaxCap;
+    if (ok != expect) fail("ORACLE", "try_push(%d) returned %d with %d items stored (offset %d)", v, (int)ok, hi - lo, offset);
+    if (ok) ref[hi++] = v;
+    (void)must;
+    return ok;
+  };
+  auto pop = [&]() {
+    Item* it = nullptr;
+    bool ok = d->try_pop(it);
+    if (ok != (hi > lo)) fail("ORACLE", "try_pop returned %d with %d items stored", (int)ok, hi - lo);
+    if (ok) {
+      if (it < &items[0] || it > &items[255]) fail("INVENTED", "try_pop returned %p, not a pushed item", (void*)it);
+      if (it->v != ref[hi - 1]) fail("ORACLE", "try_pop returned %d, expected %d (the youngest of %d items, offset %d)", it->v, ref[hi - 1], hi - lo, offset);
+      hi--;
+    }
+  };
+  auto steal = [&]() {
+    Item* it = nullptr;
+    bool ok = d->try_steal(it);
+    if (ok != (hi > lo)) fail("ORACLE", "try_steal returned %d with %d items stored and nothing running concurrently", (int)ok, hi - lo);
+    if (ok) {
+      if (it < &items[0] || it > &items[255]) fail("INVENTED", "try_steal returned %p, not a pushed item", (void*)it);
+      if (it->v != ref[lo]) fail("ORACLE", "try_steal returned %d, expected %d (the oldest of %d items, offset %d)", it->v, ref[lo], hi - lo, offset);
+      lo++;
+    }
+  };
+  auto check_size = [&]() {
+    if ((int)d->size() != hi - lo) fail("ORACLE", "size() = %d with %d items stored", (int)d->size(), hi - lo);
+  };
+  for (int i = 0; i < offset; i++) {
+    push(true);
+    steal();
+  }
+  // (a long row of refused pushes re-reads unchanged indexes and would be taken for a busy-wait loop: three refusals suffice)
+  for (int i = 0, refused = 0; i < n && refused < 3; i++) refused += !push(true);
+  check_size();
+  if (take == 1)
+    for (int i = 0; i < n / 2; i++) steal();
+  if (take == 2)
+    for (int i = 0; i < n / 3; i++) pop();
+  const int n2 = second == 0 ? 0 : second == 1 ? n / 2 + 1 : n + 1;
+  for (int i = 0, refused = 0; i < n2 && refused < 3; i++) refused += !push(true);
+  check_size();
+  for (int i = 0; hi > lo || i == 0; i++) {
+    if (pattern == 0 || (pattern == 2 && (i & 1))) pop();
+    else
+      steal();
+    if (i > 300) break;
+  }
+  pop();
+  steal();
+  check_size();
+  push(true); // still usable
+  steal();
+  mark_nontrivial();
+  delete d;
+}
+
 namespace xp = xenium::policy;
 using Growing2 = xenium::chase_work_stealing_deque<Item, xp::capacity<2>>;
 using Growing4 = xenium::chase_work_stealing_deque<Item, xp::capacity<4>>;
 using Fixed2 = xenium::chase_work_stealing_deque<Item, xp::capacity<2>, xp::container<xenium::detail::fixed_size_circular_array<Item, 2>>>;
 using Fixed4 = xenium::chase_work_stealing_deque<Item, xp::capacity<4>, xp::container<xenium::detail::fixed_size_circular_array<Item, 4>>>;
 
+using GrowingMax8 = xenium::chase_work_stealing_deque<Item, xp::capacity<2>, xp::container<xenium::detail::growing_circular_array<Item, 2, 8>>>;
+XMC_TEST_FN("sweep_grow2", (&deque_sweep<Growing2, 0>), "sequential sweep: offsets x fill levels x drain patterns, growing container from capacity 2");
+XMC_TEST_FN("sweep_grow4", (&deque_sweep<Growing4, 0>), "sequential sweep, growing container from capacity 4");
+XMC_TEST_FN("sweep_growmax8", (&deque_sweep<GrowingMax8, 8>), "sequential sweep, growing container 2..8: pushes beyond the maximal capacity are refused");
+XMC_TEST_FN("sweep_fixed4", (&deque_sweep<Fixed4, 4>), "sequential sweep, fixed container of 4");
 XMC_TEST_FN("grow2", (&deque_test<Growing2, -1>), "growing container, initial capacity 2");
 XMC_TEST_FN("grow4", (&deque_test<Growing4, -1>), "growing container, initial capacity 4");
 XMC_TEST_FN("fixed2", (&deque_test<Fixed2, 2>), "fixed container, capacity 2");
